@@ -100,7 +100,7 @@ def build(ctx):
     ctx.assumptions = ["one cursor call from an arbitrary cursor position inside the buffer object (0..N) on an arbitrary image: legal pre-states must agree with random access and end at the documented position, every other pre-state must be reported (checked build)",
                        "geometry: numInGroup <= %d, data length <= %d, wire blockLength in [compiled, compiled+%d] per level" % (G, D, E),
                        "chain obligation (position after member k == required position before member k+1) is part of the reference model: after/before expressions are generated from the same walker"]
-    plan = [("vs_msg_le.xml", "17", "checked"), ("vs_msg_be.xml", "20", "checked"), ("vs_msg_le.xml", "17", "unchecked"), ("vs_msg2_le.xml", "17", "checked")] if ctx.quick else \
+    plan = [("vs_msg_le.xml", "17", "checked"), ("vs_msg_be.xml", "20", "checked"), ("vs_msg_le.xml", "17", "unchecked"), ("vs_msg2_le.xml", "17", "checked"), ("vs_exotic.xml", "17", "checked")] if ctx.quick else \
         [("vs_msg_le.xml", "17", "checked"), ("vs_msg_be.xml", "17", "checked"), ("vs_msg_le.xml", "20", "checked"), ("vs_msg_be.xml", "20", "checked"),
          ("vs_msg_le.xml", "11", "checked"), ("vs_msg_be.xml", "14", "checked"), ("vs_msg_le.xml", "17", "unchecked"), ("vs_msg_be.xml", "20", "unchecked"),
          ("vs_msg2_le.xml", "17", "checked"), ("vs_msg2_be.xml", "20", "checked"), ("vs_msg2_le.xml", "11", "unchecked")]
